@@ -888,10 +888,170 @@ def gf_correspondence(w, out, n):
         out["gf_cases"].append(case)
 
 
+# ---- blocked operators with domain != range: correspondence with the blocked tables + deterministic search --------------
+def blocked_domain_range(w, out, thorough):
+    from scipy.linalg import block_diag
+    r, sp, fails = w.r, w.spaces, out["failures"]
+    lists = [(2, 4), (4, 2), (0, 1), (1, 0)]           # indices into w.spaces: octahedron [P1, DP0], [DP0, P1]; tetrahedron
+    lid = {L: i for i, L in enumerate(lists)}
+    dims = {i: int(sum(sp[k].global_dof_count for k in L)) for L, i in lid.items()}
+    # (domain list, range list, dual list) of the blocked atoms; the octahedron P1/DP0 mass matrix is rank deficient, so
+    # dual = range there; on the tetrahedron also dual != range
+    triples = [(0, 1, 1), (1, 0, 0), (0, 1, 1), (0, 0, 0), (2, 2, 3), (2, 3, 3), (3, 2, 2)]
+    atoms = []
+    for k, (d, q, u_) in enumerate(triples):
+        D, Q, U = lists[d], lists[q], lists[u_]
+        B = api.BlockedOperator(2, 2)
+        blocks = [[None, None], [None, None]]
+        for i in range(2):
+            for j in range(2):
+                shape = (sp[U[i]].global_dof_count, sp[D[j]].global_dof_count)
+                m = r.integers(-3, 4, size=shape).astype("float64")
+                if k == 2:
+                    m = m + 1j * r.integers(-2, 3, size=shape)
+                if k == 3 and i != j:
+                    continue                      # missing off-diagonal blocks
+                blocks[i][j] = m
+                B[i, j] = BoundaryOperatorWithAssembler(sp[D[j]], sp[Q[i]], sp[U[i]], StubAssembler(m), None)
+        dense = np.block([[blocks[i][j] if blocks[i][j] is not None else
+                           np.zeros((sp[U[i]].global_dof_count, sp[D[j]].global_dof_count)) for j in range(2)] for i in range(2)])
+        atoms.append((B, (d, q, u_), dense))
+    inv1 = {}
+
+    def single_inv(a, b):
+        if (a, b) not in inv1:
+            inv1[(a, b)] = np.asarray(get_inverse_mass_matrix(sp[a], sp[b]).to_dense())
+        return inv1[(a, b)]
+    invtab = {}
+    for q in range(len(lists)):
+        for u_ in range(len(lists)):
+            try:
+                if all(sp[a].grid == sp[b].grid for a, b in zip(lists[q], lists[u_])):
+                    invtab[(q, u_)] = block_diag(*[single_inv(a, b) for a, b in zip(lists[q], lists[u_])])
+            except RuntimeError:
+                pass                               # rank-deficient pair: not used by any atom
+    out["bb_env"] = {"dims": {str(k): v for k, v in dims.items()},
+                     "atoms": [{"spaces": list(t), "mat": mat_q(m)} for _, t, m in atoms],
+                     "invmass": [{"range": k[0], "dual": k[1], "mat": mat_q(m)} for k, m in invtab.items()]}
+
+    class BW:            # adapter so that gen_expr / build / show can be reused
+        pass
+    pool = [(a[0], a[1], a[2]) for a in atoms]
+
+    def tref(e):
+        k = e[0]
+        if k == "atom":
+            return atoms[e[1]][1], np.asarray(atoms[e[1]][2], dtype=complex)
+        if k in ("add", "sub"):
+            (t1, m1), (t2, m2) = tref(e[1]), tref(e[2])
+            if t1 != t2:
+                raise IllTyped()
+            return t1, m1 + m2 if k == "add" else m1 - m2
+        if k == "neg":
+            t, m = tref(e[1])
+            return t, -m
+        if k == "scall":
+            t, m = tref(e[2])
+            return t, complex(SCALARS[e[1]][1]) * m
+        if k == "scalr":
+            t, m = tref(e[1])
+            return t, complex(SCALARS[e[2]][1]) * m
+        (t1, m1), (t2, m2) = tref(e[1]), tref(e[2])
+        if t2[1] != t1[0]:
+            raise IllTyped()
+        return (t2[0], t1[1], t1[2]), m1 @ (invtab[(t2[1], t2[2])] @ m2)
+
+    def observe(e, what, coef=None):
+        try:
+            op = build(w, e, pool)
+            if what == 0:
+                return "ok", np.asarray(op.weak_form().to_dense())
+            if what == 1:
+                return "ok", np.asarray(op.strong_form().to_dense())
+            fs, pos = [], 0
+            for s_ in op.domain_spaces:
+                n = s_.global_dof_count
+                fs.append(api.GridFunction(s_, coefficients=coef[pos:pos + n]))
+                pos += n
+            res = op * fs
+            return "ok", (np.concatenate([np.asarray(g.projections()) for g in res]),
+                          [g.space == a and g.dual_space == b for g, a, b in
+                           zip(res, op.range_spaces, op.dual_to_range_spaces)])
+        except Exception as ex:
+            return type(ex).__name__, str(ex)[:120]
+
+    def rec(sig, what, data=None):
+        fails.append({"signature": sig, "what": what, "data": data or {}})
+
+    def pdepth(e):
+        sub = [pdepth(x) for x in e[1:] if isinstance(x, list)]
+        return (1 if e[0] in ("mul", "matmul") else 0) + (max(sub) if sub else 0)
+    # deterministic list of expressions: every atom, typed and ill-typed sums, all ordered pairs as products, scalings
+    exprs = [["atom", k] for k in range(len(atoms))]
+    exprs += [["add", ["atom", 0], ["atom", 2]], ["sub", ["atom", 2], ["atom", 0]], ["add", ["atom", 0], ["atom", 1]],
+              ["scall", 3, ["atom", 0]], ["neg", ["atom", 4]], ["scalr", ["atom", 5], 1]]
+    exprs += [["mul", ["atom", a], ["atom", b]] for a in range(len(atoms)) for b in range(len(atoms))
+              if (a, b) in ((0, 1), (1, 0), (1, 2), (3, 3), (0, 3), (5, 4), (4, 4), (6, 5), (0, 4), (4, 6), (2, 1))]
+    exprs += [["matmul", ["add", ["atom", 0], ["atom", 2]], ["atom", 1]], ["mul", ["atom", 1], ["mul", ["atom", 0], ["atom", 1]]]]
+    for _ in range(20 if thorough else 6):
+        exprs.append(gen_expr(r, len(atoms), 2))
+    for e in exprs:
+        try:
+            t, m = tref(e)
+            typed = True
+        except IllTyped:
+            typed, t, m = False, None, None
+        except KeyError:
+            continue
+        for what in (0, 1, 2):
+            out["evaluations"] += 1
+            coef = None
+            if what == 2:
+                if not typed:
+                    continue
+                coef = r.integers(-4, 5, dims[t[0]]).astype(float) + (1j * r.integers(-2, 3, dims[t[0]]) if r.random() < .4 else 0)
+            status, val = observe(e, what, coef)
+            case = {"what": what, "expr": e, "show": show(e).replace("A", "B"), "typed": typed, "result": status}
+            if coef is not None:
+                case["coef"] = [cq(x) for x in coef]
+            if status == "ok":
+                arr = val[0] if what == 2 else val
+                case["mat"] = mat_q(arr.reshape(-1, 1) if what == 2 else arr)
+            # the Coq side evaluates matrices as functions (no sharing): nested products are left to the numerical check
+            if pdepth(e) <= 1:
+                out["bb_cases"].append(case)
+            tag = {0: "weak_form", 1: "strong_form", 2: "apply-to-function-list"}[what]
+            neq = typed and any(a != b for a, b in zip(lists[t[0]], lists[t[1]]))
+            cls = "domain!=range" if neq else "domain=range"
+            if not typed:
+                if status == "ok":
+                    rec("C14:blocked:incompatible-space-lists-accepted", "expression %s" % case["show"])
+                elif status != "ValueError":
+                    rec("C14:blocked:incompatible-space-lists-raise-%s" % status, "expression %s: %s" % (case["show"], val))
+                continue
+            if status != "ok":
+                rec("C14:blocked:%s-raises-%s[%s]" % (tag, status, cls), "expression %s: %s" % (case["show"], val))
+                continue
+            if what == 0 and not close(val, m):
+                rec("C14:blocked:weak_form-differs-from-block-matrix-expression[%s]" % cls,
+                    "expression %s (product = W1 blockdiag(M^-1) W2)" % case["show"])
+            if what == 1:
+                want = invtab[(t[1], t[2])] @ m          # block rows: M(range_i, dual_i)^-1 W_i.
+                if not close(val, want):
+                    rec("C14:blocked:strong_form-differs-from-blockwise-inverse-mass-times-weak[%s]" % cls,
+                        "expression %s: strong_form() is not blockdiag(M(range_i, dual_i)^-1) * weak_form()" % case["show"],
+                        {"expr": case["show"]})
+            if what == 2:
+                if not close(val[0], m @ coef):
+                    rec("C14:blocked:apply-to-function-list-projections-differ[%s]" % cls, "expression %s" % case["show"])
+                if not all(val[1]):
+                    rec("C14:blocked:apply-to-function-list-result-spaces-differ[%s]" % cls, "expression %s" % case["show"])
+
+
 def main():
     cfg = json.load(sys.stdin)
     thorough = cfg.get("strength") == "thorough"
-    out = {"cases": [], "pcases": [], "gf_cases": [], "failures": [], "evaluations": 0, "hist": {}}
+    out = {"cases": [], "pcases": [], "gf_cases": [], "bb_cases": [], "failures": [], "evaluations": 0, "hist": {}}
     try:
         w = World(rng(), thorough)
         out["env"] = w.env_json()
@@ -901,6 +1061,7 @@ def main():
         blocked_checks(w, out)
         gridfun_checks(w, out, 60 if thorough else 20)
         gf_correspondence(w, out, 150 if thorough else 60)
+        blocked_domain_range(w, out, thorough)
         out["env"] = w.env_json()
     except Exception:
         out["crash"] = traceback.format_exc()
